@@ -24,13 +24,13 @@ const (
 	pvEW   = 3
 	nPV    = 6
 	nNs    = 3
-	nRC    = 4
+	nRC    = 5
 	nScope = 3
-	nExtra = 8
+	nExtra = 9
 	reps   = 3 // every function is called several times: Go map iteration order is random
 )
 
-var rcReasons = [][]string{{"config"}, {"headlessendpoint"}, {"service"}, {"headlessendpoint", "service"}}
+var rcReasons = [][]string{{"config"}, {"headlessendpoint"}, {"service"}, {"headlessendpoint", "service"}, {"headlessendpoint", "endpoint"}}
 
 type mask struct{ b *big.Int }
 
@@ -163,6 +163,8 @@ func runTable(out string) {
 								mr.Forced = true
 							case 7: // watchAddr
 								mp.WatchAddr = true
+							case 8: // prevTarget
+								mp.PrevTargets = [][2]int{{5, ns}}
 							}
 							px := env.realProxy(mp)
 							rk := key.real()
